@@ -484,17 +484,19 @@ def np_empty(ctx, shape, dtype=None):
 
 
 @lib('numpy.zeros_like')
-def np_zeros_like(ctx, a, dtype=None):
+def np_zeros_like(ctx, a, dtype=None, shape=None):
     a = arr(ctx, a)
     dt = A.dtype_from(ctx, dtype) or a.dtype
-    return Arr.from_fn(a.shape, dt, lambda idx: A.cast_scalar(0, dt))
+    shp = a.shape if shape is None else shape_arg(ctx, shape)
+    return Arr.from_fn(shp, dt, lambda idx: A.cast_scalar(0, dt))
 
 
 @lib('numpy.ones_like')
-def np_ones_like(ctx, a, dtype=None):
+def np_ones_like(ctx, a, dtype=None, shape=None):
     a = arr(ctx, a)
     dt = A.dtype_from(ctx, dtype) or a.dtype
-    return Arr.from_fn(a.shape, dt, lambda idx: A.cast_scalar(1, dt))
+    shp = a.shape if shape is None else shape_arg(ctx, shape)
+    return Arr.from_fn(shp, dt, lambda idx: A.cast_scalar(1, dt))
 
 
 @lib('numpy.arange')
